@@ -253,7 +253,9 @@ class C20(Prop):
     THEOREMS = ["C20_bin_index_spec", "C20_per_base", "C20_bins", "C20_bins_nan_free", "C20_oob",
                 "C20_zoom_bins", "C20_zoom_step_function", "C20_zoom_missing", "C20_zoom_nan_free", "C20_zoom_oob",
                 "C20_fetch_clamp", "C20_oob_layout",
-                "C20_sums_exact_in_domain", "C20_bin_mean_ieee", "C20_entry_sums_exact_in_domain"]
+                "C20_sums_exact_in_domain", "C20_bin_mean_ieee", "C20_entry_sums_exact_in_domain",
+                # the written file as the subject: reader model on the bytes in the middle of the wrappers (Proofs/PyArraysFile.v)
+                "C20_values_wig_written", "C20_values_bed_written", "C20_values_file", "C20_values_file_bed"]
     RULE = ("one case = one chromosome (length, value/entry layout) with a batch of queries (s, e, bins, statistic, missing, oob, "
             "reader hands over touching items or not).  Exhaustive block: every layout of <= 3 values (disjoint) / <= 3 entries "
             "(any overlap) on chromosomes of <= 5 bases (quick; <= 6 thorough) x every range [s,e) from 2 below 0 to 2 past the end x "
